@@ -57,6 +57,7 @@ CONSTANTS
   ChanCap,        \* buffer of the state update channel (32 in state.go:NewState)
   Removable,      \* SUBSET Users: users the application may RemoveUser
   LateDial,       \* TRUE: clients may also dial after Server.Close began
+  CtxCancel,      \* TRUE: the application may cancel the context it handed to Server.Serve ("stops serving when the context is canceled")
   FreeSections,   \* TRUE: a handler runs any sequence of db sections (trace validation); FALSE: the program of its command class
   WriterPref,     \* TRUE: a waiting writer blocks new readers (sync.RWMutex); FALSE in trace validation (waiting is not observable)
   Labels,         \* TRUE: lab carries the label of the step just taken (trace validation)
@@ -74,6 +75,9 @@ CONSTANTS
   FixIDChanged,      \* TRUE: MessageIDChanged reaches snapshots through the queues    (code: FALSE)
   FixPeek,           \* TRUE: removeState does not read other states' snapshots        (code: FALSE)
   FixCapsOrder,      \* TRUE: CAPABILITY takes userLock before capsLock                (code: FALSE)
+  FixReleaseCtx,     \* TRUE: Session.done releases the state with a context that is not cancelled (code: FALSE - it passes Serve's
+                     \*       context on, user.removeState's first db.Read fails and it returns before delete(states), statesWG.Done
+                     \*       and state.Close)
   Bug             \* "none" or a seeded defect
 
 AllCmdKinds == {"noop", "caps", "login", "auth", "sel", "idle", "done", "logout", "lit"}
@@ -160,6 +164,9 @@ ModeName(l, m) == IF l[1] \in {"statesLock", "db"} THEN l[1] \o "." \o (IF m = "
 
 Go(g, to) == pc' = [pc EXCEPT ![g] = to]
 Go2(g, to, g2, to2) == pc' = [pc EXCEPT ![g] = to, ![g2] = to2]
+
+Closed(c) == c \in chan
+ServeCtx == <<"serveCtx", "-">>          \* Done() of the context given to Server.Serve; every session context derives from it
 
 \* what an acquire step of g may want: a set of [l, m ("X" exclusive | "R" shared), to (set of next pcs)]; {} = no acquire step
 A(l, m, to) == [l |-> l, m |-> m, to |-> to]
@@ -256,7 +263,9 @@ RelAt(g, p) ==
     [] k = "h" /\ p = "H.Q.rel" -> [l |-> DB(UOf(id)), to |-> SecNext(id, "Q")]
     [] FreeSections /\ k = "h" /\ p = "H.W.in" -> [l |-> DB(UOf(id)), to |-> {"H.sec"}]
     [] FreeSections /\ k = "h" /\ p = "H.sec" /\ cur[id] # "noop" -> [l |-> UserLock(id), to |-> {"H.fin"}]
-    [] k = "loop" /\ p = "RS.R.rel" -> [l |-> DB(UOf(id)), to |-> {"RS.sl.acq"}]
+    \* user.go:removeState: `if err != nil { return err }` after the first read - taken when the context is cancelled
+    [] k = "loop" /\ p = "RS.R.rel" -> [l |-> DB(UOf(id)), to |-> IF OpenEnv THEN {"RS.sl.acq", "L.connclose"}
+                                                                 ELSE IF Closed(ServeCtx) /\ ~FixReleaseCtx THEN {"L.connclose"} ELSE {"RS.sl.acq"}]
     [] k = "loop" /\ p = "RS.W.rel" -> [l |-> DB(UOf(id)), to |-> {"RS.close"}]
     [] k = "upd" /\ p = "U.R.rel" -> [l |-> DB(id), to |-> UNext("R")]
     [] k = "upd" /\ p = "U.W.rel" -> [l |-> DB(id), to |-> UNext("W")]
@@ -286,7 +295,6 @@ ReleaseStep(g) ==
   /\ UNCHANGED rest
 
 -----------------------------------------------------------------------------
-Closed(c) == c \in chan
 Close(c) == chan' = chan \cup {c}
 ConnDown(s) == cli[s] = "gone" \/ srvClosed[s]
 Complete(s) == infl' = [infl EXCEPT ![s] = FALSE]
@@ -301,7 +309,7 @@ AccStep ==
   \/ /\ pc[Acc] = "A.accept" /\ backlog # {} /\ listener = "open"
      /\ \E s \in backlog : backlog' = backlog \ {s} /\ accHand' = s
      /\ Go(Acc, "A.send") /\ NoLab /\ UNCHANGED <<chan, srvClosed>> /\ UNCHANGED AccUnch
-  \/ /\ pc[Acc] = "A.accept" /\ (listener = "closed" \/ OpenEnv)
+  \/ /\ (pc[Acc] = "A.accept" /\ listener = "closed") \/ (OpenEnv /\ pc[Acc] \in {"A.accept", "end"})
      /\ Close(<<"connCh", "-">>) /\ Go(Acc, "end") /\ SetLab(Acc, "go.end", "accept")
      /\ UNCHANGED <<backlog, accHand, srvClosed>> /\ UNCHANGED AccUnch
   \* repaired design only: select { case connCh <- conn: ; case <-serveDoneCh: conn.Close(); return }
@@ -316,9 +324,11 @@ AccStep ==
 SrvUnch == <<lk, listener, backlog, cli, inbox, infl, sent, cur, mode, sstate, userIn, states, dbClosed,
              qItems, qChan, qClosed, connQ, fwdHeld, submitted, arg, touches, afterClose>>
 SrvStep ==
-  \/ /\ pc[Srv] = "S.sel" /\ (Closed(<<"serveDone", "-">>) \/ (Closed(<<"connCh", "-">>) /\ pc[Acc] = "end"))
+  \* (OpenEnv: the application may have called Serve for several listeners: further serve loops end the same way)
+  \/ /\ \/ pc[Srv] = "S.sel" /\ (Closed(<<"serveDone", "-">>) \/ Closed(ServeCtx) \/ (Closed(<<"connCh", "-">>) /\ pc[Acc] = "end"))
+        \/ OpenEnv /\ pc[Srv] \in {"S.sel", "end"}
      /\ srvClosed' = [s \in Sessions |-> srvClosed[s] \/ pc[Loop(s)] # "off"]
-     /\ wg' = [wg EXCEPT !.serveWG = @ - 1]
+     /\ wg' = [wg EXCEPT !.serveWG = IF @ > 0 THEN @ - 1 ELSE 0]
      /\ Go(Srv, "end") /\ SetLab(Srv, "go.end", "serve")
      /\ UNCHANGED <<chan, accHand>> /\ UNCHANGED SrvUnch
   \/ /\ (pc[Srv] = "S.sel" \/ (OpenEnv /\ pc[Srv] = "end"))     \* a connection arrives (OpenEnv: the new goroutine's hook may fire late): the session goroutine greets and starts its command reader
@@ -418,7 +428,7 @@ LoopStep(s) ==
      /\ UNCHANGED <<lk, wg, srvClosed, cur, mode, sstate, states, qItems, qChan, qClosed, touches>> /\ UNCHANGED LoopUnch
   \* select: cmdCh closed / state.Done()
   \* (OpenEnv: also a failed write to the client, an invalidated state, too many bad commands)
-  \/ /\ pc[g] = "L.sel" /\ (Closed(<<"cmdCh", s>>) \/ (u # NoUser /\ Closed(<<"doneCh", s>>))) /\ ~OpenEnv
+  \/ /\ pc[g] = "L.sel" /\ (Closed(<<"cmdCh", s>>) \/ (u # NoUser /\ Closed(<<"doneCh", s>>)) \/ Closed(ServeCtx)) /\ ~OpenEnv
      /\ Leave(g, s) /\ NoLab
      /\ UNCHANGED <<lk, wg, infl, srvClosed, cur, mode, sstate, states, qItems, qChan, qClosed, touches>> /\ UNCHANGED LoopUnch
   \* handle_logout.go:handleLogout: BYE and the tagged OK are written while both locks are held
@@ -437,7 +447,7 @@ LoopStep(s) ==
   \* handleIdle's select: a command (DONE -> OK, anything else -> BAD), cmdCh closed, state.Done(): return; deferred endIdle: close(idleCh)
   \/ /\ pc[g] = "L.idle"
      /\ \/ /\ CmdReady(s) /\ Go2(g, "L.sel", Rd(s), RdAfter(s)) /\ Complete(s) /\ cur' = [cur EXCEPT ![s] = "none"] /\ TakeCmd(s)
-        \/ /\ (Closed(<<"cmdCh", s>>) \/ Closed(<<"doneCh", s>>)) /\ Go(g, "L.sel") /\ UNCHANGED <<infl, cur, inbox>>
+        \/ /\ (Closed(<<"cmdCh", s>>) \/ Closed(<<"doneCh", s>>) \/ Closed(ServeCtx)) /\ Go(g, "L.sel") /\ UNCHANGED <<infl, cur, inbox>>
      /\ mode' = [mode EXCEPT ![s] = "normal"]
      /\ chan' = IF Bug = "idleNotStopped" THEN chan ELSE chan \cup {<<"idleCh", s>>}
      /\ SetLab(g, "ch.close", "idleCh")
@@ -687,6 +697,12 @@ StartRemove(u) ==
   /\ u \in Removable /\ pc[Rem(u)] = "idle" /\ Go(Rem(u), "X.ul") /\ SetLab(Rem(u), "call", "RemoveUser")
   /\ UNCHANGED lk /\ UNCHANGED rest
 
+CancelCtx ==           \* the application cancels the context it gave to Server.Serve
+  /\ CtxCancel /\ ~Closed(ServeCtx)
+  /\ Close(ServeCtx)
+  /\ NoLab /\ UNCHANGED <<pc, lk, wg, listener, backlog, accHand, cli, inbox, infl, sent, srvClosed, cur, mode, sstate,
+                          userIn, states, dbClosed, qItems, qChan, qClosed, connQ, fwdHeld, submitted, arg, touches, afterClose>>
+
 CloseListener ==       \* the application closes its listener once Server.Close returned; pending connections are reset
   /\ pc[Closer] = "end" /\ listener = "open"
   /\ listener' = "closed" /\ backlog' = {}
@@ -698,6 +714,7 @@ Env ==
   \/ ~OpenEnv /\ \E s \in Sessions : Dial(s) \/ SendLitData(s) \/ Disconnect(s) \/ \E k \in CmdKinds : SendCmd(s, k)
   \/ ~OpenEnv /\ \E u \in Users : \E k \in UpdKinds : Submit(u, k)
   \/ ~OpenEnv /\ CloseListener
+  \/ ~OpenEnv /\ CancelCtx
   \/ \E u \in Users : StartRemove(u)
   \/ StartClose
 
